@@ -235,3 +235,83 @@ Proof.
   - destruct (Hsplit _ eq_refl) as (Hx & Hrest). split; [discriminate|]. intros e i [= <- <-]. split; [exact Hx | exact Hrest].
   - destruct (Nat.eqb (length chron) n); split; discriminate.
 Qed.
+
+(** ---- cancelling an unfired DeferredList / gatherResults cancels (hence fires) every pending input ---- *)
+Section Cancel.
+  Variables f1 f2 ce : bool.
+  Notation cb := (dl_cb f1 f2 ce).
+
+  Definition has_fired (s : st) (i : nat) : Prop := res (get i s) <> None.
+
+  Lemma process_res s i o k : i < n_of s ->
+    has_fired (upd i (set_res (snd (cb s i o))) (fst (cb s i o))) i /\
+    (has_fired s k -> has_fired (upd i (set_res (snd (cb s i o))) (fst (cb s i o))) k).
+  Proof.
+    intros Hi. pose proof (dl_cb_eff f1 f2 ce s i o) as (E & _). cbn zeta in E.
+    assert (Hn : i < n_of (fst (cb s i o))) by (unfold n_of; rewrite E; exact Hi).
+    unfold has_fired. rewrite !get_upd by exact Hn. rewrite Nat.eqb_refl. split; [cbn; discriminate|].
+    destruct (Nat.eqb k i); [cbn; discriminate|]. unfold get. rewrite E. auto.
+  Qed.
+
+  Lemma fire_in_res s i o k : i < n_of s ->
+    has_fired (fire_in cb i o s) i /\ (has_fired s k -> has_fired (fire_in cb i o s) k).
+  Proof.
+    intros Hi. unfold fire_in. set (s1 := upd i (set_res o) s).
+    assert (H1 : has_fired s1 i /\ (has_fired s k -> has_fired s1 k)).
+    { unfold has_fired, s1. rewrite !get_upd by exact Hi. rewrite Nat.eqb_refl. split; [cbn; discriminate|].
+      destruct (Nat.eqb k i); [cbn; discriminate | auto]. }
+    destruct (att (get i s1)); [|exact H1].
+    assert (Hi1 : i < n_of s1) by (unfold s1; rewrite n_upd; exact Hi).
+    pose proof (process_res s1 i o k Hi1) as [P1 P2]. destruct (cb s1 i o) as [s2 o']. cbn [fst snd] in *.
+    split; [exact P1 | intros H; apply P2, H1, H].
+  Qed.
+
+  Lemma cancel_input_res s i k : i < n_of s ->
+    has_fired (cancel_input cb i s) i /\ (has_fired s k -> has_fired (cancel_input cb i s) k).
+  Proof.
+    intros Hi. unfold cancel_input. destruct (res (get i s)) eqn:Hr.
+    - split; [unfold has_fired; rewrite Hr; discriminate | auto].
+    - assert (He : forall j, has_fired s j -> has_fired (emit (ECancel i) s) j) by (intros j H; exact H).
+      destruct (canc (get i (emit (ECancel i) s)));
+        match goal with |- context [fire_in cb i ?o ?s0] => destruct (fire_in_res s0 i o k Hi) as [F1 F2] end;
+        (split; [exact F1 | intros H; apply F2, He, H]).
+  Qed.
+
+  Lemma cancel_all_res js : forall s, (forall j, In j js -> j < n_of s) ->
+    forall k, (In k js \/ has_fired s k) -> has_fired (cancel_all cb js s) k.
+  Proof.
+    unfold cancel_all. induction js as [|j r IH]; intros s Hjs k Hk; cbn [fold_left].
+    - destruct Hk as [[]|Hk]. exact Hk.
+    - assert (Hj : j < n_of s) by (apply Hjs; left; reflexivity).
+      apply IH.
+      + intros x Hx. rewrite (n_cancel_input f1 f2 ce). apply Hjs. right. exact Hx.
+      + destruct (cancel_input_res s j k Hj) as [C1 C2]. destruct Hk as [[->|Hk]|Hk]; [right; exact C1 | left; exact Hk | right; apply C2, Hk].
+  Qed.
+
+  (** the canceller of an input is called by [cancel_input] exactly when the input has not fired *)
+  Lemma cancel_input_log s i :
+    (res (get i s) = None -> exists l, log (cancel_input cb i s) = l ++ ECancel i :: log s) /\
+    (res (get i s) <> None -> cancel_input cb i s = s).
+  Proof.
+    unfold cancel_input. destruct (res (get i s)) eqn:Hr; [split; [discriminate | reflexivity]|].
+    split; [intros _ | congruence].
+    assert (Hf : forall o s0, exists l, log (fire_in cb i o s0) = l ++ log s0).
+    { intros o s0. unfold fire_in. destruct (att (get i (upd i (set_res o) s0))); [|exists []; reflexivity].
+      pose proof (dl_cb_eff f1 f2 ce (upd i (set_res o) s0) i o) as (_ & _ & _ & _ & _ & E). cbn zeta in E.
+      destruct (cb (upd i (set_res o) s0) i o) as [s2 o']. cbn [fst snd] in E. cbn [log upd set_ins].
+      destruct (agg (upd i (set_res o) s0)); [inversion E; exists []; reflexivity|].
+      destruct (new_result f1 f2 (upd i (set_res o) s0) i o); inversion E as [[Ea El]]; rewrite El;
+        [eexists [_]; reflexivity | exists []; reflexivity]. }
+    destruct (canc (get i (emit (ECancel i) s)));
+      match goal with |- context [fire_in cb i ?o ?s0] => destruct (Hf o s0) as [l Hl]; exists l; rewrite Hl; reflexivity end.
+  Qed.
+End Cancel.
+
+Lemma fact_cancel_fires_all f1 f2 ce s : agg s = None ->
+  forall i, i < n_of s -> res (get i (step (KList f1 f2 ce) s CancelAgg)) <> None.
+Proof.
+  intros Ha i Hi. cbn [step]. rewrite Ha. cbn [cb_of].
+  apply (cancel_all_res f1 f2 ce (seq 0 (n_of s)) s).
+  - intros j Hj. apply in_seq in Hj. lia.
+  - left. apply in_seq. lia.
+Qed.
